@@ -7,10 +7,9 @@
 From Coq Require Import NArith ZArith List Bool String.
 From FitV Require Import Model.Values Model.Bytes Model.Base Model.Profile Model.Components Model.Route Model.Encode
   Spec.FitSyntax Spec.Grammar Spec.RoundTrip Proofs.EncodeProofs Proofs.C05Grammar.
+From FitV Require Export Spec.EncLayout.
 Import ListNotations.
 Local Open Scope N_scope.
-
-Definition sfdef_of (pf : pfield) : sfdef := mk_sfdef (pf_num pf) (fsize pf) (fit_base (pf_t pf)).
 
 (* the definition mentions every struct field of m that is set: a field that is not mentioned is unset *)
 Definition covers (m : msg) (fields : list pfield) : Prop :=
@@ -21,9 +20,6 @@ Definition covers (m : msg) (fields : list pfield) : Prop :=
 Definition menc (be : bool) (m : msg) (fields : list pfield) (parts : list (list N)) : Prop :=
   Forall (from_profile (m_num m)) fields /\ NoDup (map pf_num fields) /\
   Forall2 (fun pf p => field_out be m pf = EOk p) fields parts /\ covers m fields.
-
-Definition rdef_of (be : bool) (gmn : N) (fields : list pfield) : record := RDef 0 be gmn (map sfdef_of fields) false [].
-Definition rdata_of (parts : list (list N)) : record := RData 0 (List.concat parts) [].
 
 Inductive lay (be : bool) : list msg -> list record -> Prop :=
 | lay_nil : lay be [] []
